@@ -68,6 +68,9 @@ def handle (args : List String) : Option String :=
   match args with
   | ["mid", a, b] => do
     let a ← parseInts a; let b ← parseInts b
+    if middleRawArr a.toArray b.toArray != middleRawArrLoop a.toArray b.toArray then
+      some "model-self-check-failed"
+    else
     match middle a b with
     | some (x, y, s) =>
       -- the hypothesis `OptimalSplit` of `C27_script_minimal_partial`, evaluated on this instance
